@@ -117,6 +117,14 @@ def oracle(sw, obs, split, flat):
                 else:
                     if not (isinstance(leaf, list) and leaf and leaf[0] == "hole"):
                         bad.append(("unrequested-slot-not-missing", f"slot {key} was not requested but holds {leaf}"))
+                    elif j is None and isinstance(leaf[1], list) and leaf[1][:1] == ["nantuple"]:
+                        # "shaped like a real result": one all-missing array per member, each of that member's shape
+                        import numpy as np
+                        ref = R.result_of_kind(kind, 0)
+                        want_shapes = [list(np.shape(m)) for m in ref] if isinstance(ref, tuple) else None
+                        if want_shapes is not None and leaf[1][1:] != want_shapes:
+                            bad.append(("placeholder-shape", f"slot {key}: the placeholder's members have shapes "
+                                        f"{leaf[1][1:]}, a real result's members {want_shapes}"))
                 return
             if len(node) != len(dims[d]):
                 bad.append(("grid-shape", f"dimension {names[d]} has {len(node)} entries, expected {len(dims[d])}"))
